@@ -24,6 +24,7 @@ EXPLANATION = (
     "histories of real transports are not decided."
     ' (R6, shared with C05.R3) _ensure_lock reuses the lock only after comparing the event loops; a new lock records the loop and closes the old transport.'
     ' (R7) inventory of loop-bound attributes (lock, futures, timer handles): each is renewed by _ensure_lock or cancelled / cleared by _close_transport on a loop change.'
+    ' (R8, shared with C06.R6) no timeout handle is orphaned or left armed when a request completes: a stale _timeout_mechanism would close the transport of the next request.'
 )
 
 
@@ -98,6 +99,13 @@ def check(ctx: Ctx, rep: Report):
         rep.obligations.append(type(o)("C10.R6", o.key, o.where, o.what, o.status, o.detail))
     prog, res = ctx.prog, ctx.res
     classes = proto_classes(ctx)
+    rep.rule("C10.R8", "no timeout of an earlier (completed) request is left armed: a stale _timeout_mechanism would close the healthy transport of the next request, so two successful requests would not share one transport (shared with C06.R6)", 6)
+    from .c06 import r6 as _c06_r6
+    _sub = _Report("C06", rep.tier)
+    for ci in classes:
+        _c06_r6(ctx, _sub, ci)
+    for o in _sub.obligations:
+        rep.obligations.append(type(o)("C10.R8", o.key, o.where, o.what, o.status, o.detail))
     r5(ctx, rep, classes)
     # ---- R1
     for fn in res.all_funcs():
